@@ -279,6 +279,11 @@ def _run(P, rep, tier, prefix):
     from sa.props.common import length_guard_rule
     length_guard_rule(P, rep, r7, R=R)
 
+    # ---- R8 content lines of any length ----------------------------------------------------------
+    r8 = rep.rule(prefix + '-R8', 'nothing on the content path looks at input text through a window of constant size (a content line '
+                  'may be arbitrarily long)', reference=3)
+    constant_window_rule(P, rep, r8, R)
+
     # ---- R4 one-byte delimiter at every call site -----------------------------------
     r4 = rep.rule(prefix + '-R4', 'every call site passes a one-byte constant delimiter', reference=1)
     sites = 0
@@ -431,3 +436,61 @@ def _show(f, atoms):
         else:
             parts.append('%+d*%s' % (c, getattr(atoms.get(k), 'name', '?')))
     return ' '.join(parts) or '0'
+
+
+
+def constant_window_rule(P, rep, rid, R):
+    """The content function and the utils.text functions it reaches take no slice of, and run no bounded search over, their
+    input with a bound that folds to an integer constant >= 2: such a window makes the result depend on whether a line (the
+    first one, for line-ending detection) is longer than the constant - the records then differ with the length of a
+    content line.  Bounds that are computed from the data (positions found, len(newline)) are not constants and pass."""
+    from sa.model import Unfoldable
+    cf = R.content_fn
+    if cf is None:
+        raise AnalysisError('no single content-reading function reachable from %s' % R.entry.short)
+    todo, fns = [cf], []
+    while todo:
+        f = todo.pop()
+        if f in fns:
+            continue
+        fns.append(f)
+        for n in walk_no_nested(f.node):
+            if isinstance(n, ast.Call):
+                r = P.resolve_call(f, n, self_cls=R.cls if (f.cls is not None and f.cls in R.cls.mro()) else None)
+                if isinstance(r, list):
+                    for g in r:
+                        if g.module.name == 'pydiffx.utils.text' or (g.cls is not None and g.cls in R.cls.mro() and g is not R.readahead_fn
+                                                                      and g is not R.header_fn and g is not R.entry):
+                            todo.append(g)
+
+    def const_int(e, f):
+        if e is None:
+            return None
+        try:
+            v = P.fold(e, f.module, f.cls)
+        except (Unfoldable, AnalysisError):
+            return None
+        return v if type(v) is int and abs(v) >= 2 else None
+    SEARCH = ('find', 'rfind', 'index', 'rindex', 'count', 'startswith', 'endswith')
+    for f in fns:
+        rep.analysed(f)
+        bad = []
+        for n in walk_no_nested(f.node):
+            if isinstance(n, ast.Subscript) and isinstance(n.slice, ast.Slice):
+                for b in (n.slice.lower, n.slice.upper):
+                    k = const_int(b, f)
+                    if k is not None:
+                        bad.append((n, 'slice %s with the constant bound %d' % (norm(n)[:40], k)))
+            elif isinstance(n, ast.Call) and isinstance(n.func, ast.Attribute) and n.func.attr in SEARCH:
+                for b in list(n.args[1:]) + [kw.value for kw in n.keywords]:
+                    k = const_int(b, f)
+                    if k is not None:
+                        bad.append((n, 'search %s bounded by the constant %d' % (norm(n)[:40], k)))
+        if bad:
+            for n, what in bad:
+                rep.violation(rid, 'constant-window:%s:%s' % (f.short, norm(n)[:40]), f.loc(n), '%s takes a %s: what the reader makes of a '
+                              'content section then depends on whether a line is longer than that constant' % (f.short, what),
+                              path=[R.entry.short, cf.short, f.short])
+        else:
+            rep.ok(rid, f.short)
+    rep.floor(rid, 3)
